@@ -47,7 +47,10 @@ var raceFrameRe = regexp.MustCompile(`github\.com/inbucket/inbucket/v3/pkg/([^\s
 
 // raceReport returns a stable class (one Inbucket frame of each of the two
 // conflicting accesses) and the report text.  By default a report counts only
-// if the INNERMOST frame of both accesses is Inbucket code.  With stackPkg set
+// if, for both accesses, the innermost frame that belongs to this module is
+// Inbucket code (pkg/...): the access was made by Inbucket or by library code
+// on its behalf (bytes.Buffer, zerolog, ...), not by the harness, a seam or
+// the simulator.  With stackPkg set
 // (e.g. "extension/luahost") it counts if both access stacks pass through
 // that Inbucket package, whatever library code is innermost: two tasks inside
 // the same library object which nothing in Inbucket orders.
@@ -88,8 +91,17 @@ func raceReport(from int64, stackPkg string) (class, detail string) {
 				continue
 			}
 			if stackPkg == "" {
-				if m := raceFrameRe.FindStringSubmatch(st[0]); m != nil {
-					fn = append(fn, m[1])
+				// the innermost frame that belongs to this module (skipping the runtime,
+				// the standard library and dependencies the access was made through)
+				// must be Inbucket code, not the harness or the simulator
+				for k := 0; k < len(st); k += 2 { // function line, file line
+					if !strings.Contains(st[k], "github.com/inbucket/inbucket/v3/") {
+						continue
+					}
+					if m := raceFrameRe.FindStringSubmatch(st[k]); m != nil {
+						fn = append(fn, m[1])
+					}
+					break
 				}
 				continue
 			}
